@@ -228,7 +228,13 @@ def w_obj(pid, tier, seed, job):
     ctx = F.Ctx(pid, tier, seed)
     rng = random.Random(job)
     akai = job % 2 == 0
-    check_tree(ctx, rand_spec(rng, akai), akai, rng, 25)
+    spec = rand_spec(rng, akai)
+    if job % 4 < 2:
+        # duplicate groups that differ only in the separator before L/R: their counted names must stay distinct
+        grp = [("leaf", n) for n in rng.sample(["KICK-L", "KICK-L", "KICK L", "KICK L", "KICK -L", "KICK -L", "KICK-R", "KICK R"], rng.randint(4, 7))]
+        spec.append(("dir", "DUPS", grp))
+        spec += [("leaf", "B-L"), ("leaf", "B L"), ("leaf", "B-L"), ("leaf", "B L")][: rng.choice([0, 4])]
+    check_tree(ctx, spec, akai, rng, 25)
     return ctx.dump()
 
 
